@@ -311,7 +311,10 @@ impl<'a> Explorer<'a> {
         let mut base = Vec::new();
         oracle::c01(&rec, &p, &mut base);
         oracle::c03(&rec, &p, &mut base);
-        let ok = base.is_empty();
+        // (a capacity reported above what the block holds is a wrong *number*: nothing is damaged
+        // yet, and what follows - an append "within capacity" that allocates, or one that writes
+        // past the block - is exactly what C11 / C03 are about, so that path is kept)
+        let ok = base.iter().all(|v| v.prop == "C03" && v.oracle == "capacity-vs-block");
         let mut viols: Vec<Viol> = base.into_iter().filter(|v| (v.prop == "C01" && self.props.c01) || (v.prop == "C03" && self.props.c03)).collect();
         let sel = Props { c01: false, c03: false, ..self.props };
         step_oracles(&sel, &rec, &p, &mut viols);
